@@ -95,6 +95,23 @@ pub fn programs(w: &World, thorough: bool) -> Vec<String> {
         }
         v.retain(|p| !p.contains("fn_id"));
     }
+    // the last result (`ans`, `_`) after expressions whose type goes through unification (generic
+    // calls, polymorphic zero, conditionals, lists), used with every atom
+    {
+        let at = atoms(thorough);
+        for a in &at {
+            let a = a.render();
+            let firsts = [format!("sqrt(({a}) * ({a}))"), format!("abs(2 * {a})"), format!("dbl(2 * {a})"), format!("({a}) * 0 + 2 * {a}"), format!("0 + 2 * {a}"), format!("head([2 * {a}])"), format!("if true then 2 * {a} else 3 * {a}"), format!("2 * {a}"), format!("same2(2 * {a}, 3 * {a})"), format!("sq(2 * {a}) / (2 * {a})")];
+            for b in &at {
+                let b = b.render();
+                for e in &firsts {
+                    v.push(format!("{e}\nans + 3 * {b}"));
+                    v.push(format!("{e}\n[_, 3 * {b}] |> head"));
+                    v.push(format!("{e}\nlet vq = ans\nvq - 3 * {b}"));
+                }
+            }
+        }
+    }
     // struct fields and list elements
     for (a, b) in [("3 m", "2 s"), ("1 km + 2 m", "3 hour"), ("sq(2 m) / (1 m)", "1 / (2 Hz)")] {
         v.push(format!("Pair {{ p1: {a}, p2: {b} }}.p1"));
@@ -228,7 +245,7 @@ pub fn check(rep: &mut Report) {
     }
     rep.set("verdicts", json!(counts));
     rep.set("programs", json!(n));
-    rep.rule = "every program of the C02 space (expressions of depth <= 2 over the collision alphabet, annotated lets, inferred/annotated/generic functions with call sites, unit and dimension definitions) plus base^X for every composite constant exponent expression X of depth <= 2 over {2,3,-1,0.5,0.1,0.2,0.3,1/3}, as result, bound global, function body and list element; where-clauses, generic structs, list functions and conditionals over every ordered atom pair; for every program the checker accepts: run-time dimension of every produced quantity == static type, run-time errors only of the documented kinds; non-trivial = accepted programs whose quantities were compared".into();
+    rep.rule = "every program of the C02 space (expressions of depth <= 2 over the collision alphabet, annotated lets, inferred/annotated/generic functions with call sites, unit and dimension definitions) plus base^X for every composite constant exponent expression X of depth <= 2 over {2,3,-1,0.5,0.1,0.2,0.3,1/3}, as result, bound global, function body and list element; where-clauses, generic structs, list functions and conditionals over every ordered atom pair; the last result (ans, _) after ten first-statement shapes, used with every atom; for every program the checker accepts: run-time dimension of every produced quantity == static type, run-time errors only of the documented kinds; non-trivial = accepted programs whose quantities were compared".into();
     rep.assumptions = vec![
         "both the static and the dynamic view come from the implementation; the base-unit -> base-dimension map comes from the unit registry".into(),
         "programs whose static type is polymorphic or not a dimension are only checked for run-time error kinds".into(),
